@@ -191,6 +191,27 @@ def rule_bounded(rep: Report, repo: Repo) -> None:
                 ok, why = True, f'bounded by the length of the list {norm(n.iter.args[-1].args[0])} already built in memory'
             else:
                 ok, why = False, 'unrecognised file-controlled loop'
+                # range(A, B) whose trip count B - A is, as a linear form over the segment fields, exactly what a dominating
+                # `<trip> < _reserved_dict_threshold` test bounds (named ends of the tail read through)
+                from ..linexpr import Env as _Env, py_ir as _py_ir, to_lin as _to_lin, lin_add as _lin_add, lin_eq as _lin_eq
+                from ..pyfacts import resolve_names as _rn
+                if isinstance(n.iter, ast.Call) and dotted(n.iter.func) == 'range' and len(n.iter.args) == 2:
+                    try:
+                        trip = _lin_add(_to_lin(_py_ir(_rn(im, n.iter.args[1])), _Env({})), _to_lin(_py_ir(_rn(im, n.iter.args[0])), _Env({})), -1)
+                    except Exception:      # noqa: BLE001
+                        trip = None
+                    for gtxt, pol in dominating_guards(n):
+                        try:
+                            ge = _rn(im, ast.parse(gtxt, mode='eval').body)
+                        except SyntaxError:
+                            continue
+                        if pol and trip is not None and isinstance(ge, ast.Compare) and len(ge.ops) == 1 and isinstance(ge.ops[0], ast.Lt) \
+                                and norm(ge.comparators[0]) == '_reserved_dict_threshold':
+                            try:
+                                if _lin_eq(_to_lin(_py_ir(ge.left), _Env({})), trip):
+                                    ok, why = True, 'only under the dense-tail threshold (trip count = the tested tail length)'
+                            except Exception:      # noqa: BLE001
+                                pass
             rep.check(ok, 'C10.BOUNDED', f'_init_memory:{it}', why, f'{R}:{n.lineno}')
     thr = repo.const('flipjump/fjm/fjm_consts.py', '_reserved_dict_threshold')
     rep.check(isinstance(thr, int) and 0 < thr <= 1 << 20, 'C10.BOUNDED', '_reserved_dict_threshold', str(thr), 'flipjump/fjm/fjm_consts.py',
